@@ -133,6 +133,14 @@ def handleC02 (cmd : String) (args : List Sexp) : Option Sexp :=
         | .error e => pure (C02D.errSexp e)
         | .ok res => pure (tagged "ok" [C02D.treeSexp res])
       | _ => pure (C02D.errSexp .type)
+  | "c02.ril", [.list rs, d, tree] => do
+      let rs ← nats? rs; let d ← asInt? d; let td ← C02D.tree? tree
+      match td with
+      | .node bs names es =>
+        match riListNode rs d bs names es with
+        | .error e => pure (C02D.errSexp e)
+        | .ok res => pure (tagged "ok" [C02D.treeSexp res])
+      | _ => pure (C02D.errSexp .type)
   | "c02.ri_none", [r, tree] => do
       let r ← asInt? r; let td ← C02D.tree? tree
       match td with
@@ -192,6 +200,9 @@ def handleC02 (cmd : String) (args : List Sexp) : Option Sexp :=
   | "c02.torch_repeat", [.list reps, .list sh] => do
       let reps ← nats? reps; let sh ← nats? sh
       pure (tagged "ok" [C02D.tensorSexp ((arange sh).repeat reps)])
+  | "c02.torch_ril", [.list rs, d, .list sh] => do
+      let rs ← nats? rs; let d ← asNat? d; let sh ← nats? sh
+      pure (tagged "ok" [C02D.tensorSexp (T.repeatInterleaveL rs d (arange sh))])
   | "c02.torch_ri", [r, d, .list sh] => do
       let r ← asNat? r; let d ← asNat? d; let sh ← nats? sh
       pure (tagged "ok" [C02D.tensorSexp ((arange sh).repeatInterleave r d)])
